@@ -27,13 +27,19 @@ CONSTANTS Kinds,      \* subset of {"minmax", "min", "max", "limits"}
           Lo, Hi,     \* static datatype bounds of p
           PVals,      \* values offered to p
           LVals,      \* values offered to a limit parameter
-          ForbSets    \* set of sets: values refused by a user check hook (returning None)
+          ForbSets,   \* set of sets: values refused by a user check hook (returning None)
+          Inits       \* configured start values of the limit parameters: codes 10 * lo + hi
+                      \* (10 * Lo + Hi: nothing configured, the datatype bounds are the default)
 
 VARIABLES kind, forb, lo, hi, val, last
 lvars == <<kind, forb, lo, hi, val, last>>
 
 LInit == /\ kind \in Kinds /\ forb \in ForbSets
-         /\ lo = Lo /\ hi = Hi      \* limit parameters default to the datatype bounds
+         /\ \E c \in Inits :    \* a limit parameter that does not exist stays at the datatype bound
+              /\ lo = (IF kind \in {"minmax", "min", "limits"} THEN c \div 10 ELSE Lo)
+              /\ hi = (IF kind \in {"minmax", "max", "limits"} THEN c % 10 ELSE Hi)
+         /\ Lo <= lo /\ lo <= Hi /\ Lo <= hi /\ hi <= Hi
+         /\ kind = "limits" => lo <= hi    \* an inverted tuple in the configuration is refused at start
          /\ val = Lo /\ last = "ok"
 
 Inverted == lo > hi
